@@ -247,16 +247,34 @@ def udigit_variants(text):
 # configuration form (vinegar.transform.get_transformation_chain / apply_transformation_chain): str entry, dict with
 # a bare scalar (True/False, 1/0, "x"/"", None), list, tuple, dict of keyword arguments, non-dict Mapping
 ROUTES = ["apply", "chain_scalar_bool", "chain_list", "chain_dict", "chain_scalar_int", "chain_scalar_str", "chain_tuple",
-          "chain_mapping", "apply_chain", "chain_str", "chain_none", "chain_after_identity"]
+          "chain_mapping", "apply_chain", "chain_str", "chain_none", "chain_after_identity", "chain_smartdict",
+          "ctx0", "ctx1", "ctx2", "ctx3", "ctx4", "ctx5", "ctx6", "ctx7"]
 ROUTES_MAC = ["apply", "chain_list", "chain_dict", "chain_tuple", "chain_mapping", "apply_chain", "chain_scalar_case",
-              "chain_after_identity"]
+              "chain_after_identity", "chain_smartdict", "ctx0", "ctx3", "ctx4", "ctx6", "ctx7"]
 NEEDS_NO_RAISE = ("chain_str", "chain_none")
+_CTX_CACHE = {}
+# neighbours in a multi-entry chain: entries BEFORE the one under test (each in a different configuration form,
+# with its own flags) and entries AFTER it.  A neighbour is used for an input only if it is the identity on it
+# (checked with the real code), so that the case remains the single transform of the model; what is exercised is that
+# the configuration of one entry does not reach another (args / kwargs / flags per entry).
+CTX = [
+    ([{"ip_address.strip_mask": {"raise_error_if_malformed": True}}], []),
+    ([{"ip_address.normalize": {"raise_error_if_malformed": True}}], []),
+    ([{"ipv4_address.strip_mask": {"raise_error_if_malformed": True}}, "string.to_lower"], []),
+    ([{"mac_address.normalize": {"target_case": "lower", "delimiter": "minus", "raise_error_if_malformed": False}}], []),
+    ([{"string.add_suffix": {"suffix": ""}}], [{"string.add_prefix": {"prefix": ""}}]),
+    ([{"ipv6_address.strip_mask": [True]}, {"ip_address.strip_mask": True}], ["string.to_lower"]),
+    ([{"string.add_suffix": [""]}, {"ip_address.normalize": {"raise_error_if_malformed": True}}, "ip_address.strip_mask"],
+     [{"ip_address.strip_mask": {"raise_error_if_malformed": True}}]),
+    ([], [{"mac_address.normalize": {"raise_error_if_malformed": True, "target_case": "upper"}}, "string.to_upper"]),
+]
 MODNAME = {"v4": "ipv4_address", "v6": "ipv6_address", "mac": "mac_address", "ip": "ip_address"}
 
 
 def route_callable(c):
     import types
     from vinegar import transform as TR
+    from vinegar.utils.smart_dict import SmartLookupDict
     fam, fn, r, via = c["fam"], c["fn"], c["raise"], c.get("via", "direct")
     f = getattr(MODS[fam], fn)
     name = f"{MODNAME[fam]}.{fn}"
@@ -264,13 +282,44 @@ def route_callable(c):
     kw = ({"target_case": c["mc"], "delimiter": c["md"], "raise_error_if_malformed": r} if mac
           else {"raise_error_if_malformed": r})
     pos = [c["mc"], c["md"], r] if mac else [r]
+    direct = (lambda s: f(s, **kw)) if mac else (lambda s: f(s, r))
     if via == "direct":
-        return (lambda s: f(s, **kw)) if mac else (lambda s: f(s, r))
+        return direct
+    if via.startswith("ctx"):
+        before, after = CTX[int(via[3:])]
+        default = (not r) and (not mac or (c["mc"] == "upper" and c["md"] == ":"))
+        entry = name if default else {name: dict(kw)}          # bare name wherever the defaults are wanted
+
+        key = (via, repr(entry))
+        if key not in _CTX_CACHE:
+            mk_chain = TR.get_transformation_chain
+            _CTX_CACHE[key] = (mk_chain(before) if before else None, mk_chain(after) if after else None,
+                               mk_chain(list(before) + [entry] + list(after)), mk_chain(list(before) + [entry]))
+        ch_before, ch_after, ch_full, ch_notail = _CTX_CACHE[key]
+
+        def identity(ch, x):
+            if ch is None:
+                return True
+            try:
+                return ch(x) == x
+            except Exception:   # noqa: BLE001
+                return False
+
+        def in_context(s):
+            if not identity(ch_before, s):
+                return direct(s)
+            try:
+                mid = direct(s)
+            except Exception:   # noqa: BLE001
+                mid = None
+            return (ch_full if (isinstance(mid, str) and identity(ch_after, mid)) else ch_notail)(s)
+        return in_context
     if via == "apply":
         return (lambda s: TR.apply_transformation(name, s, **kw)) if mac else (lambda s: TR.apply_transformation(name, s, r))
     cfg = {"chain_scalar_bool": bool(r), "chain_scalar_int": 1 if r else 0, "chain_scalar_str": "yes" if r else "",
            "chain_list": list(pos), "chain_tuple": tuple(pos), "chain_dict": dict(kw),
            "chain_mapping": types.MappingProxyType(dict(kw)), "apply_chain": list(pos), "chain_none": None,
+           "chain_smartdict": SmartLookupDict(kw),
            "chain_scalar_case": c["mc"], "chain_after_identity": dict(kw)}.get(via)
     if via == "chain_str":
         chain = [name]
